@@ -24,6 +24,8 @@ type Suite struct {
 	// Leaf, if set, is evaluated on every state without successors or every
 	// state (All) - e.g. the liveness continuation.
 	Properties []string // property ids whose violations this suite reports
+	// Boot, if set, replaces the default cluster construction (HANDLER suites).
+	Boot func(b sim.Budget) *sim.Cluster
 }
 
 // Stats are the counters a DFS produces (evidence raw material).
@@ -94,7 +96,11 @@ type Exec struct {
 
 func NewExec(s *Suite) (*Exec, *common.Violation) {
 	x := &Exec{}
-	x.C = sim.New(s.Cfg, s.Budget)
+	if s.Boot != nil {
+		x.C = s.Boot(s.Budget)
+	} else {
+		x.C = sim.New(s.Cfg, s.Budget)
+	}
 	if s.Monitors != nil {
 		x.Mons = s.Monitors()
 	}
